@@ -420,6 +420,8 @@ class Engine:
         self.sequence_repeat_hook = None
         self.small_bounds = (64, 4096, 1 << 20)
         self.count_paths_as_cases = False
+        self.smt_keep = default_smt_keep()  # thorough tier: keep this many discharged queries as SMT-LIB2 for a second solver
+        self.smt_samples = []
 
     # ---- solver plumbing -------------------------------------------------
     def check(self, *extra):
@@ -495,11 +497,64 @@ class Engine:
         if self.check() != "sat":
             raise Abort()
 
-    def _next_prefix(self):
-        if self.pos < len(self.prefix):
-            d = self.prefix[self.pos]
-            self.pos += 1
-            return True, d
+    # ---- the decision trail ------------------------------------------------------------------------
+    # Entries: ("fork", bool, key) a branch both sides of which were feasible; ("eq"/"new", ...) a
+    # concretisation choice -- these two steer the re-execution and are consumed strictly in order.
+    # ("fd", bool, key) a forced branch, ("ask", answer, key), ("pick", value, key), ("pr", verdict, key)
+    # are OPTIONAL memo entries: they only save solver work when the re-execution performs the same
+    # operation (same key = structural hash of the term) at the same place.  z3 orders commutative
+    # arguments by AST id, so a re-execution may simplify a term differently and take a syntactic
+    # shortcut the first run did not (or the reverse): optional entries that do not match are skipped or
+    # recomputed, never trusted for another term.
+    OPTIONAL = ("fd", "ask", "pick", "pr")
+
+    def _find_optional(self, kind, key):
+        """a recorded optional entry (kind, key) before the next steering entry; consumes up to it"""
+        q = self.pos
+        while q < len(self.prefix):
+            ent = self.prefix[q]
+            if ent[0] not in self.OPTIONAL:
+                return None
+            if ent[0] == kind and ent[2] == key:
+                self.pos = q + 1
+                return ent
+            q += 1
+        return None
+
+    def _next_steering(self, kinds):
+        """the next steering entry (skipping optional leftovers) if it is one of `kinds`; consumes it"""
+        q = self.pos
+        while q < len(self.prefix):
+            ent = self.prefix[q]
+            if ent[0] in self.OPTIONAL:
+                q += 1
+                continue
+            if ent[0] in kinds:
+                self.pos = q + 1
+                return ent
+            return None
+        return None
+
+    def _at_end(self):
+        return self.pos >= len(self.prefix)
+
+    def _record(self, ent):
+        if self._at_end():
+            self.prefix = self.prefix + [ent]
+            self.pos = len(self.prefix)
+        self.trail.append(ent)
+
+    @staticmethod
+    def _key(term):
+        try:
+            return term.hash()
+        except Exception:
+            return 0
+
+    def _next_prefix(self):  # kept for concretize()
+        ent = self._next_steering(("eq", "new"))
+        if ent is not None:
+            return True, ent
         return False, None
 
     def decide(self, cond):
@@ -507,66 +562,78 @@ class Engine:
         self.ndec += 1
         if self.ndec > self.max_decisions:
             raise Truncated()
-        have, d = self._next_prefix()
-        if have:
-            if not isinstance(d, bool):
-                raise RuntimeError("non-deterministic re-execution (expected a recorded branch)")
+        key = self._key(cond)
+        ent = self._find_optional("fd", key)
+        if ent is not None:
+            d = ent[1]
             self.solver.add(cond if d else z3.Not(cond))
-            self.trail.append(d)
+            self.trail.append(ent)
             return d
+        # a recorded fork with the same key right ahead?
+        q = self.pos
+        while q < len(self.prefix) and self.prefix[q][0] in self.OPTIONAL:
+            q += 1
+        if q < len(self.prefix) and self.prefix[q][0] == "fork" and self.prefix[q][2] == key:
+            ent = self.prefix[q]
+            self.pos = q + 1
+            self.solver.add(cond if ent[1] else z3.Not(cond))
+            self.trail.append(ent)
+            return ent[1]
         rt = self.check(cond)
         rf = self.check(z3.Not(cond))
         if rt == "unknown" or rf == "unknown":
             raise Inconclusive()
         if rt == "sat" and rf == "sat":
-            self.pending.append(self.trail + [False])
-            d = True
-        elif rt == "sat":
+            ent = self._next_steering(("fork",))  # recorded under another term form
+            if ent is not None:
+                d = ent[1]
+                self.trail.append(ent)
+            else:
+                if not self._at_end():
+                    # the recorded run did not fork here: follow the True side, the False side is queued as well
+                    pass
+                self.pending.append(self.trail + [("fork", False, key)])
+                d = True
+                self._record(("fork", True, key))
+            self.solver.add(cond if d else z3.Not(cond))
+            return d
+        if rt == "sat":
             d = True
         elif rf == "sat":
             d = False
         else:
             raise Abort()
-        self.pos += 1
-        self.prefix = self.prefix + [d]
         self.solver.add(cond if d else z3.Not(cond))
-        self.trail.append(d)
+        self._record(("fd", d, key))
         return d
 
     def ask(self, cond):
-        """satisfiability of `cond` on the current path; the answer is recorded in the decision
-        trail, so re-executions that share this prefix do not ask the solver again"""
-        have, d = self._next_prefix()
-        if have:
-            if not (isinstance(d, tuple) and d[0] == "ask"):
-                raise RuntimeError("non-deterministic re-execution (expected a recorded query)")
-            self.trail.append(d)
-            return d[1]
-        r = self.check(B(cond))
-        d = ("ask", r)
-        self.pos += 1
-        self.prefix = self.prefix + [d]
-        self.trail.append(d)
+        """satisfiability of `cond` on the current path (memoised in the trail)"""
+        cond = B(cond)
+        key = self._key(cond)
+        ent = self._find_optional("ask", key)
+        if ent is not None:
+            self.trail.append(ent)
+            return ent[1]
+        r = self.check(cond)
+        self._record(("ask", r, key))
         return r
 
     def pick(self, term, *extra):
-        """a value `term` can take on the current path (under `extra`); recorded like `ask`"""
-        have, d = self._next_prefix()
-        if have:
-            if not (isinstance(d, tuple) and d[0] == "pick"):
-                raise RuntimeError("non-deterministic re-execution (expected a recorded pick)")
-            self.trail.append(d)
-            return d[1]
+        """a value `term` can take on the current path (under `extra`); memoised in the trail"""
+        t = T(term)
+        key = self._key(t)
+        ent = self._find_optional("pick", key)
+        if ent is not None:
+            self.trail.append(ent)
+            return ent[1]
         r = self.check(*[B(x) for x in extra])
         if r == "unknown":
             raise Inconclusive()
         if r != "sat":
             raise Abort()
-        val = self.solver.model().eval(T(term), model_completion=True).as_long()
-        d = ("pick", val)
-        self.pos += 1
-        self.prefix = self.prefix + [d]
-        self.trail.append(d)
+        val = self.solver.model().eval(t, model_completion=True).as_long()
+        self._record(("pick", val, key))
         return val
 
     def concretize(self, x, why="", prefer=()):
@@ -585,9 +652,9 @@ class Engine:
                 self.solver.add(x.e == val)
                 self.trail.append(d)
                 return val
-            # kind == 'new': pick another value under the exclusions
-            self.pos -= 1
-            self.prefix = self.prefix[: self.pos]
+            # kind == 'new': pick another value under the exclusions (this entry ends the prefix)
+            self.prefix = self.prefix[: self.pos - 1]
+            self.pos = len(self.prefix)
             return self._fresh_value(x, list(excluded), why, prefer)
         return self._fresh_value(x, [], why, prefer)
 
@@ -620,10 +687,8 @@ class Engine:
                 self.stats.fork_caps += 1
                 self.notes.append(f"concretisation cap on {why}: values {nexcl} explored, others not")
         d = ("eq", val, tuple(excluded))
-        self.pos += 1
-        self.prefix = self.prefix + [d]
         self.solver.add(x.e == val)
-        self.trail.append(d)
+        self._record(d)
         return val
 
     # ---- obligations -------------------------------------------------------
@@ -632,17 +697,13 @@ class Engine:
         if isinstance(cond, bool):
             cond = z3.BoolVal(cond)
         cond = B(cond)
-        have, d = self._next_prefix()
-        if have:
-            if not (isinstance(d, tuple) and d[0] == "pr"):
-                raise RuntimeError("non-deterministic re-execution (expected a recorded verdict)")
-            self.trail.append(d)
-            return d[1]
+        key = (self._key(cond), what)
+        ent = self._find_optional("pr", key)
+        if ent is not None:
+            self.trail.append(ent)
+            return ent[1]
         ok = self._prove(cond, what, detail)
-        d = ("pr", ok)
-        self.pos += 1
-        self.prefix = self.prefix + [d]
-        self.trail.append(d)
+        self._record(("pr", ok, key))
         return ok
 
     def _prove(self, cond, what, detail):
@@ -658,6 +719,13 @@ class Engine:
         r = self.check(neg)
         if r == "unsat":
             st.discharged += 1
+            if len(self.smt_samples) < self.smt_keep:
+                self.solver.push()
+                self.solver.add(neg)
+                try:
+                    self.smt_samples.append(self.solver.to_smt2())
+                finally:
+                    self.solver.pop()
             if len(self.samples) < self.keep_samples:
                 self.samples.append(
                     {
@@ -718,8 +786,15 @@ class Engine:
             reach=self.reach_tags,
             notes=self.notes[:10],
             hashes=sorted(self.stats.hashes),
+            smt=self.smt_samples,
         )
         return d
+
+
+def default_smt_keep():
+    import os
+
+    return 2 if os.environ.get("VERIF_TIER") == "thorough" else 0
 
 
 def _short(t, n=400):
